@@ -2,6 +2,7 @@ import ClaripyProofs.Lemmas.AST.RulesSound
 import ClaripyProofs.Props.C05
 import Mathlib.Data.BitVec
 import Mathlib.Tactic.Ring
+import ClaripyProofs.Lemmas.BV.Reverse
 /-! Soundness of the schemas of `Claripy.AST.R.widthy` (their side conditions use the width `Expr.width` reports, which
 `Claripy.Props.C05.eval_width` ties to evaluation), and the master theorem over `R.all`. -/
 namespace Claripy.AST
@@ -232,12 +233,146 @@ theorem iteCmp_sound : ∀ s ∈ R.iteCmp, Sound s := by
   · exact ne_ite_else_sound
   · exact ne_ite_then_sound
 
+/-! ### byte reversal -/
+theorem bytesRev_bytesRev (k n : Nat) (hn : n < 2 ^ (8 * k)) : bytesRev k (bytesRev k n) = n := by
+  have e : (256 : Nat) ^ k = 2 ^ (8 * k) := by
+    have : (256 : Nat) = 2 ^ 8 := by decide
+    rw [this, ← Nat.pow_mul]
+  have hlt : bytesRev k n < 2 ^ (8 * k) := e ▸ bytesRev_lt k n
+  apply Nat.eq_of_testBit_eq
+  intro i
+  rw [Claripy.BV.testBit_bytesRev' k _ i hlt]
+  by_cases hi : i < 8 * k
+  · have hj : 8 * (k - 1 - i / 8) + i % 8 < 8 * k := by
+      have : i / 8 < k := by omega
+      omega
+    rw [Claripy.BV.testBit_bytesRev' k n _ hn]
+    simp only [hi, hj, decide_true, Bool.true_and]
+    congr 1
+    have : i / 8 < k := by omega
+    omega
+  · have hle : 2 ^ (8 * k) ≤ 2 ^ i := Nat.pow_le_pow_right (by omega) (by omega)
+    simp [hi, Nat.testBit_lt_two_pow (Nat.lt_of_lt_of_le hn hle)]
+
+theorem valReverse_valReverse (v : Val) (hv : v.WF) (h : valReverse (valReverse v) ≠ .err) : valReverse (valReverse v) = v := by
+  cases v with
+  | err => simp [valReverse] at h
+  | bool b => simp [valReverse] at h
+  | bv w n =>
+    by_cases hc : w % 8 = 0 ∧ 0 < w
+    · have hw8 : 8 * (w / 8) = w := by omega
+      have hn : n < 2 ^ (8 * (w / 8)) := hw8.symm ▸ hv.1
+      have e : (256 : Nat) ^ (w / 8) = 2 ^ w := by
+        have : (256 : Nat) = 2 ^ 8 := by decide
+        rw [this, ← Nat.pow_mul, hw8]
+      have hlt : bytesRev (w / 8) n < 2 ^ w := e ▸ bytesRev_lt (w / 8) n
+      simp only [valReverse, hc, and_self, if_true, Nat.mod_eq_of_lt hv.1, Nat.mod_eq_of_lt hlt, bytesRev_bytesRev _ _ hn]
+    · simp [valReverse, hc] at h
+
+theorem rev_rev_sound : Sound R.rev_rev := by
+  intro p env _ hwt
+  simp only [R.rev_rev, eval_app, evalList_cons, evalList_nil, applyOp] at hwt ⊢
+  exact (valReverse_valReverse _ (eval_wf env p.x) hwt).symm
+
+theorem valReverse_inj (a b : Val) (ha : a.WF) (hb : b.WF) (hra : valReverse a ≠ .err) (hrb : valReverse b ≠ .err)
+    (h : valReverse a = valReverse b) : a = b := by
+  have h1 : valReverse (valReverse a) ≠ .err := by
+    cases a with
+    | err => simp [valReverse] at hra
+    | bool x => simp [valReverse] at hra
+    | bv w n =>
+      by_cases hc : w % 8 = 0 ∧ 0 < w
+      · simp [valReverse, hc]
+      · simp [valReverse, hc] at hra
+  have h2 : valReverse (valReverse b) ≠ .err := by rw [← h]; exact h1
+  rw [← valReverse_valReverse a ha h1, ← valReverse_valReverse b hb h2, h]
+
+theorem eq_rev_sound : Sound R.eq_rev := by
+  intro p env _ hwt
+  simp only [R.eq_rev, eval_app, evalList_cons, evalList_nil, applyOp] at hwt ⊢
+  have hwa := eval_wf env p.x
+  have hwb := eval_wf env p.y
+  -- both reversals are well-typed bit-vectors of the same width
+  cases hra : valReverse (eval env p.x) with
+  | err => simp [hra] at hwt
+  | bool x => cases hx : eval env p.x <;> simp [hx, valReverse] at hra; split at hra <;> simp at hra
+  | bv w n =>
+    cases hrb : valReverse (eval env p.y) with
+    | err => simp [hra, hrb] at hwt
+    | bool y => cases hy : eval env p.y <;> simp [hy, valReverse] at hrb; split at hrb <;> simp at hrb
+    | bv w' n' =>
+      -- the operands themselves
+      cases hx : eval env p.x with
+      | err => simp [hx, valReverse] at hra
+      | bool c => simp [hx, valReverse] at hra
+      | bv wx nx =>
+        cases hy : eval env p.y with
+        | err => simp [hy, valReverse] at hrb
+        | bool c => simp [hy, valReverse] at hrb
+        | bv wy ny =>
+          rw [hx] at hra hwa; rw [hy] at hrb hwb
+          have hcx : wx % 8 = 0 ∧ 0 < wx := by
+            by_contra hc; simp [valReverse, hc] at hra
+          have hcy : wy % 8 = 0 ∧ 0 < wy := by
+            by_contra hc; simp [valReverse, hc] at hrb
+          simp only [valReverse, hcx, hcy, and_self, if_true, Val.bv.injEq] at hra hrb
+          obtain ⟨rfl, hn⟩ := hra
+          obtain ⟨rfl, hn'⟩ := hrb
+          simp only [valEq]
+          by_cases hww : wx = wy
+          · subst hww
+            simp only [and_self, hcx.2, if_true, Val.bool.injEq]
+            -- reversed values are equal iff the values are
+            have e : (256 : Nat) ^ (wx / 8) = 2 ^ wx := by
+              have : (256 : Nat) = 2 ^ 8 := by decide
+              rw [this, ← Nat.pow_mul]; congr 1; omega
+            have hw8 : 8 * (wx / 8) = wx := by omega
+            have l1 : n < 2 ^ wx := by rw [← hn, ← e]; exact bytesRev_lt _ _
+            have l2 : n' < 2 ^ wx := by rw [← hn', ← e]; exact bytesRev_lt _ _
+            have hiff : (n = n') ↔ (nx = ny) := by
+              constructor
+              · intro hnn
+                have := congrArg (bytesRev (wx / 8)) (hn.trans (hnn.trans hn'.symm))
+                rwa [Nat.mod_eq_of_lt hwa.1, Nat.mod_eq_of_lt hwb.1, bytesRev_bytesRev _ _ (hw8.symm ▸ hwa.1),
+                  bytesRev_bytesRev _ _ (hw8.symm ▸ hwb.1)] at this
+              · intro hxy; rw [← hn, ← hn', hxy]
+            have b1 : (BitVec.ofNat wx n == BitVec.ofNat wx n') = decide (n = n') := by
+              by_cases hq : n = n'
+              · subst hq; simp
+              · have : BitVec.ofNat wx n ≠ BitVec.ofNat wx n' := by
+                  intro hc
+                  have := congrArg BitVec.toNat hc
+                  simp only [BitVec.toNat_ofNat, Nat.mod_eq_of_lt l1, Nat.mod_eq_of_lt l2] at this
+                  exact hq this
+                simp [hq, this]
+            have b2 : (BitVec.ofNat wx nx == BitVec.ofNat wx ny) = decide (nx = ny) := by
+              by_cases hq : nx = ny
+              · subst hq; simp
+              · have : BitVec.ofNat wx nx ≠ BitVec.ofNat wx ny := by
+                  intro hc
+                  have := congrArg BitVec.toNat hc
+                  simp only [BitVec.toNat_ofNat, Nat.mod_eq_of_lt hwa.1, Nat.mod_eq_of_lt hwb.1] at this
+                  exact hq this
+                simp [hq, this]
+            rw [b1, b2]
+            exact (decide_eq_decide.mpr hiff).symm
+          · simp [hww] at hwt ⊢
+
+theorem revRules_sound : ∀ s ∈ R.revRules, Sound s := by
+  intro s hs
+  simp only [R.revRules, List.mem_cons, List.mem_nil_iff, or_false] at hs
+  rcases hs with h | h <;> subst h
+  · exact rev_rev_sound
+  · exact eq_rev_sound
+
 theorem all_sound : ∀ s ∈ R.all, Sound s := by
   intro s hs
   rcases List.mem_append.mp hs with h | h
   · rcases List.mem_append.mp h with h | h
-    · exact base_sound s h
-    · exact widthy_sound s h
-  · exact iteCmp_sound s h
+    · rcases List.mem_append.mp h with h | h
+      · exact base_sound s h
+      · exact widthy_sound s h
+    · exact iteCmp_sound s h
+  · exact revRules_sound s h
 
 end Claripy.AST
